@@ -395,6 +395,9 @@ func legacyXorRules(o *Obligation, f *ssa.Function, fset *token.FileSet) {
 		return
 	}
 	lenA, lenB := linSym("len("+a.Name()+")"), linSym("len("+b.Name()+")")
+	for _, in := range findU(f, func(in ssa.Instruction) bool { _, ok := in.(*ssa.Panic); return ok }) {
+		o.Fail(token.NoPos, "%s: XorBytes panics explicitly: a destination of at least min(len(a), len(b)) bytes must be accepted (the only panic allowed is the bounds check of the xor routine itself)", pos(in.Pos()))
+	}
 	doneLoops := map[*ssa.Function]bool{}
 	nPaths := 0
 	for pi := range paths {
@@ -490,6 +493,7 @@ func xorLoops(o *Obligation, g *ssa.Function, pos func(token.Pos) string) {
 		init, bound linForm
 		elem        int64
 		at          token.Pos
+		st          ssa.Instruction
 	}
 	var loops []loop
 	sym := func(v ssa.Value) (string, bool) {
@@ -563,9 +567,38 @@ func xorLoops(o *Obligation, g *ssa.Function, pos func(token.Pos) string) {
 				es = 0 // word-sized
 			}
 		}
-		loops = append(loops, loop{linOf(init, sym), linOf(bound, sym), es, in.Pos()})
+		loops = append(loops, loop{linOf(init, sym), linOf(bound, sym), es, in.Pos(), in})
 		o.Sites = append(o.Sites, fmt.Sprintf("%s %s: loop i from %s while i < %s", pos(in.Pos()), g.Name(), linOf(init, sym), linOf(bound, sym)))
 	})
+	// every store of a xor routine into memory it did not allocate is one of the recognised element stores
+	recognised := map[ssa.Instruction]bool{}
+	for _, l := range loops {
+		recognised[l.st] = true
+	}
+	var chk func(h *ssa.Function, d int)
+	seenFn := map[*ssa.Function]bool{}
+	chk = func(h *ssa.Function, d int) {
+		if seenFn[h] || d > 3 {
+			return
+		}
+		seenFn[h] = true
+		instrsOf(h, func(in ssa.Instruction) {
+			switch x := in.(type) {
+			case *ssa.Store:
+				if _, isLocal := x.Addr.(*ssa.Alloc); isLocal {
+					return
+				}
+				if !recognised[in] {
+					o.Fail(token.NoPos, "%s: %s writes memory outside the recognised element-wise xor loops (%s): bytes already produced can be overwritten, e.g. when dst is exactly a or b", pos(in.Pos()), h.Name(), x.String())
+				}
+			case *ssa.Call:
+				if sc := x.Call.StaticCallee(); sc != nil && sc.Pkg == g.Pkg && len(sc.Blocks) > 0 && sc != g {
+					chk(sc, d+1)
+				}
+			}
+		})
+	}
+	chk(g, 0)
 	if len(loops) == 0 {
 		return
 	}
